@@ -46,6 +46,8 @@ def gen_case(ctx, rng, i, tag='random', big_bias=0.35):
     return {'kind': 'all', 'spec': spec, 'mode': mode, 'factory': factory, 'order': rng.sample(['thread', 'process', 'remote'], 3),
             'concurrent': rng.random() < 0.5, 'policy': pol, 'knobs': knobs, 'sched_seed': ctx.case_seed(tag, i),
             # how the caller waits: one untimed wait(), a polling loop of timed waits, or polling is_alive() and then wait()
+            # process-global history: the other factory (PersistentWorker.create, which every Pool uses) was called for these kinds before
+            'prior_persistent_create': rng.sample(['thread', 'process', 'remote'], rng.randrange(0, 3)) if factory == 'create' and rng.random() < 0.5 else [],
             'fault': fault, 'waitstyle': rng.choice(['plain', 'plain', 'poll-wait', 'poll-alive']), 'poll_t': rng.choice([0.02, 0.1, 1.0])}
 
 
@@ -88,6 +90,12 @@ class Run:
             s.truth.clear()
         else:
             self.exp = ('notrun', None)
+        for kind in c.get('prior_persistent_create') or []:
+            from pyworkers.persistent import PersistentWorker
+            k0 = {'host': srv.addr} if kind == 'remote' else {}
+            r0 = lib.call_with_deadline(lambda: PersistentWorker.create(WorkerType[kind.upper()], T.TARGETS['p_square'], **k0), 600.0)
+            if r0[0] == 'ok':
+                lib.call_with_deadline(r0[1].wait, 600.0)
         workers = {}
         for kind in c['order']:
             args = spec.get('args', [])
